@@ -278,8 +278,9 @@ StatusLine(s, line, rest) ==
   ELSE IF VersionOf(ver) = <<-1, -1>> \/ Len(code) # 3 \/ ~IsDigits(code) THEN Finish(s, "rejected")
   ELSE IF VersionOf(ver)[1] # 1 THEN Finish(s, "unspec")
   ELSE {[s EXCEPT !.buf = rest, !.ph = "hdr",
+                  \* (for a response `t` holds the reason phrase)
                   !.cur = [Cur0 EXCEPT !.m = IF s.rq = <<>> THEN "" ELSE Head(s.rq), !.v = VersionOf(ver),
-                                       !.code = NumBase(code, 10)]]}
+                                       !.code = NumBase(code, 10), !.t = IF j = 0 THEN "" ELSE From(r1, j + 1)]]}
 
 StartLine(s) ==
   LET tl == TakeLine(s.buf) IN
